@@ -13,11 +13,12 @@ import (
 	"os"
 	"sort"
 	"strings"
+	"time"
 
 	sdkmath "cosmossdk.io/math"
 	sdk "github.com/cosmos/cosmos-sdk/types"
-	govv1 "github.com/cosmos/cosmos-sdk/x/gov/types/v1"
 	banktypes "github.com/cosmos/cosmos-sdk/x/bank/types"
+	govv1 "github.com/cosmos/cosmos-sdk/x/gov/types/v1"
 
 	fxtypes "github.com/functionx/fx-core/v8/types"
 	crosschaintypes "github.com/functionx/fx-core/v8/x/crosschain/types"
@@ -33,12 +34,13 @@ type op struct {
 }
 
 type history struct {
-	Seed    int64  `json:"seed"`
-	Module  string `json:"module"`
-	Stakes  []int64 `json:"stakes_fx"`
-	Window  uint64 `json:"signed_window"`
-	Blocks  [][]op `json:"ops_per_block"`
-	Failure string `json:"failure,omitempty"`
+	Seed      int64   `json:"seed"`
+	Module    string  `json:"module"`
+	Stakes    []int64 `json:"stakes_fx"`
+	Window    uint64  `json:"signed_window"`
+	GovQuorum string  `json:"gov_quorum"`
+	Blocks    [][]op  `json:"ops_per_block"`
+	Failure   string  `json:"failure,omitempty"`
 }
 
 type objT struct {
@@ -147,7 +149,23 @@ func runHistory(r *lib.Rand, hseed int64, module string, rep *lib.Report, items 
 	_, err := x.Msg().UpdateParams(c.Ctx, &crosschaintypes.MsgUpdateParams{ChainName: module, Authority: lib.GovAuthority(), Params: params})
 	lib.Must(err)
 	user := lib.EthKey(hseed, "user", 0)
-	c.Mint(user.Acc(), lib.FX(100000))
+	c.Mint(user.Acc(), lib.FX(1000000))
+	// governance (a valid governance action): short periods so proposals end inside the history; quorum 0 in half of them
+	if script != nil {
+		h.GovQuorum = script.GovQuorum
+	} else {
+		h.GovQuorum = []string{"", "0", "0.4"}[r.Intn(3)]
+	}
+	if h.GovQuorum != "" {
+		gp, err := c.App.GovKeeper.Params.Get(c.Ctx)
+		lib.Must(err)
+		vp, dp, evp := 15*time.Second, 10*time.Second, 5*time.Second
+		gp.VotingPeriod, gp.MaxDepositPeriod, gp.ExpeditedVotingPeriod, gp.Quorum = &vp, &dp, &evp, h.GovQuorum
+		m := &govv1.MsgUpdateParams{Authority: lib.GovAuthority(), Params: gp}
+		if _, err := c.App.MsgServiceRouter().Handler(m)(c.Ctx, m); err != nil {
+			h.GovQuorum = "rejected:" + short(err.Error())
+		}
+	}
 	extID := map[string]int{}
 	accID := map[string]int{}
 	for i, o := range x.Oracles {
@@ -244,6 +262,31 @@ func runHistory(r *lib.Rand, hseed int64, module string, rep *lib.Report, items 
 					return err
 				})
 				o.Res = errClass(e)
+			case "top_up":
+				// a small stake increase by an ONLINE oracle: a small non-zero normalised power change
+				or := x.Oracles[o.A%len(x.Oracles)]
+				amt := sdkmath.NewInt(int64(1+o.B) * 100).MulRaw(1e18)
+				c.Mint(or.Oracle.Acc(), sdk.NewCoin(fxtypes.DefaultDenom, amt))
+				e := c.Try(func(ctx sdk.Context) error {
+					_, err := x.Msg().AddDelegate(ctx, &crosschaintypes.MsgAddDelegate{ChainName: module, OracleAddress: or.Oracle.Acc().String(),
+						Amount: sdk.NewCoin(fxtypes.DefaultDenom, amt)})
+					return err
+				})
+				o.Res = errClass(e)
+			case "gov_vote":
+				if proposals == 0 {
+					o.Res = "none"
+					break
+				}
+				pid := uint64(1 + int(o.B)%proposals)
+				voter := c.ValKeys[o.A%len(c.ValKeys)]
+				opt := []govv1.VoteOption{govv1.OptionYes, govv1.OptionNo, govv1.OptionAbstain, govv1.OptionNoWithVeto}[int(o.B)%4]
+				e := c.Try(func(ctx sdk.Context) error {
+					m := govv1.NewMsgVote(voter.Acc(), pid, opt, "")
+					_, err := c.App.MsgServiceRouter().Handler(m)(ctx, m)
+					return err
+				})
+				o.Res = errClass(e)
 			case "gov_proposal":
 				// a bank send out of the gov account (fails at execution: gov has no such funds) or a text-like proposal;
 				// exercises the real gov end blocker (deposit refund/burn, tally, failing message)
@@ -279,7 +322,7 @@ func runHistory(r *lib.Rand, hseed int64, module string, rep *lib.Report, items 
 }
 
 func genOp(r *lib.Rand, nOracles int) op {
-	kinds := []string{"bridge_call", "bridge_call", "inject_batch", "confirm_oset", "confirm_oset", "confirm_batch", "confirm_bcall", "confirm_bcall", "add_delegate", "gov_proposal"}
+	kinds := []string{"bridge_call", "bridge_call", "inject_batch", "confirm_oset", "confirm_oset", "confirm_batch", "confirm_bcall", "confirm_bcall", "add_delegate", "gov_proposal", "top_up", "top_up", "gov_vote"}
 	return op{Kind: kinds[r.Intn(len(kinds))], A: r.Intn(nOracles + 1), B: uint64(r.Intn(8))}
 }
 
